@@ -539,14 +539,14 @@ func TestLayeredGraphs(t *testing.T) {
 	run.SkipIfReplaying(t)
 	defer run.Done(t, chkLayered)
 	rapid.Check(t, func(t *rapid.T) {
-		form := rapid.SampledFrom([]string{"key-shortcut-alternatives", "key-shortcut-or-rule", "object-properties", "object-properties-optional", "scalar-alternatives", "array-items", "ladder-with-back-edges", "dag-above-a-legal-cycle", "arrays-with-min-items-0"}).Draw(t, "form")
+		form := rapid.SampledFrom([]string{"key-shortcut-alternatives", "key-shortcut-or-rule", "object-properties", "object-properties-optional", "scalar-alternatives", "array-items", "ladder-with-back-edges", "dag-above-a-legal-cycle", "dag-back-to-the-first-level", "arrays-with-min-items-0"}).Draw(t, "form")
 		n := rapid.IntRange(30, 44).Draw(t, "levels")
 		know := rapid.Bool().Draw(t, "typesKnowTypes")
 		sp := lib.Spec{TypesKnowTypes: know}
 		name := func(p string, i int) string { return fmt.Sprintf("@%s%d", p, i) }
 		doc := "1"
 		switch form {
-		case "ladder-with-back-edges", "dag-above-a-legal-cycle":
+		case "ladder-with-back-edges", "dag-above-a-legal-cycle", "dag-back-to-the-first-level":
 			// accepted graphs WITH cycles: every cycle runs through an alternative whose siblings
 			// terminate, so nothing is infinite - and the number of types is 2n+1, the number of
 			// paths 2^n. Only Check is asked (what the example of such a graph looks like is the
@@ -568,6 +568,30 @@ func TestLayeredGraphs(t *testing.T) {
 				}
 				sp.Types = append(sp.Types, lib.Named{Name: name("t", n), Text: "1"})
 				sp.Schema = "@t0"
+			} else if form == "dag-back-to-the-first-level" {
+				// every level lists the two types of the next one, the last level is the first one again:
+				// below the root every walk fails (it closes on @l0), the root itself has the alternative
+				// @ok - the graph is accepted, and a walk that forgets what failed needs 2^n steps
+				obj := rapid.Bool().Draw(t, "asObjects")
+				wrap := func(list string) string {
+					if obj {
+						return "{\n  \"p\": " + list + "\n}"
+					}
+					return list
+				}
+				for i := 0; i < n-1; i++ {
+					for _, p := range []string{"l", "m"} {
+						sp.Types = append(sp.Types, lib.Named{Name: name(p, i), Text: wrap(name("l", i+1) + " | " + name("m", i+1))})
+					}
+				}
+				for _, p := range []string{"l", "m"} {
+					sp.Types = append(sp.Types, lib.Named{Name: name(p, n-1), Text: wrap("@l0")})
+				}
+				sp.Types = append(sp.Types, lib.Named{Name: "@ok", Text: `"ok"`})
+				sp.Schema = "@l0 | @ok"
+				if back == "first" {
+					sp.Schema = "@ok | @l0"
+				}
 			} else {
 				for i := 0; i < n; i++ {
 					for _, p := range []string{"l", "m"} {
